@@ -37,6 +37,9 @@ type capCore struct {
 	maxWriting int
 	lossyClose bool // a failing Close of a written file loses the second half of it
 	persistent bool // once a call has failed, every later call of the same kind fails as well
+	// readErr: the error a failing Read returns instead of the harness's own (a cut-off decompressing or limited
+	// stream fails with a bare io.ErrUnexpectedEOF, which a copy loop must not take for the end of the data)
+	readErr    error
 	partialDir bool // a failing directory read delivers the first half of its entries together with the error (like os.ReadDir)
 }
 
@@ -80,6 +83,10 @@ func (c *capCore) hit(kind, name string) error {
 		c.fired = kind
 		c.t.Stat("fault:fs." + kind)
 		c.t.Logf("FAULT: primitive call %d %s(%q) fails", i, kind, name)
+		if kind == "file.Read" && c.readErr != nil {
+			c.t.Stat("fault:fs.file.Read(" + c.readErr.Error() + ")")
+			return c.readErr
+		}
 		return errInjectedFS
 	}
 	return nil
@@ -531,7 +538,7 @@ func runC08(t *T) {
 	masked := newCapFS(coreM, mask)
 	twin := newCapFS(coreT, rel)
 	g := newFsGen(t, []string{"d", "f", "e", "x"}, 3)
-	pre := takeSnapshot(innerT, snapOpts{})
+	pre := takeSnapshot(innerT, snapOpts{Special: true})
 	g.observe(pre)
 	o := c08Op(t, helper, g)
 	if (o.Kind == "Remove" || o.Kind == "RemoveAll" || o.Kind == "Rename") && (o.P == "." || o.Q == ".") {
@@ -572,8 +579,8 @@ func runC08(t *T) {
 	want := call(twin, coreT)
 	got := call(masked, coreM)
 	t.Logf("masked=%s (%v) twin=%s; primitive calls seen: %v; fault fired: %q", errClass(got.Err), got.Err, errClass(want.Err), coreM.calls, coreM.fired)
-	sm := takeSnapshot(innerM, snapOpts{})
-	st := takeSnapshot(innerT, snapOpts{})
+	sm := takeSnapshot(innerM, snapOpts{Special: true})
+	st := takeSnapshot(innerT, snapOpts{Special: true})
 	sig := "C08:" + helper + ":" + opSig(Op{Kind: o.Kind, P: o.P, Q: o.Q, Flag: o.Flag & 3}, pre) + ":exposed=" + capKey(mask)
 	where := fmt.Sprintf("%s on %s exposing only %v (of %v)", o, []string{"mem", "os.FS"}[innerKind], mask, rel)
 	if coreM.fired == "" {
@@ -598,6 +605,9 @@ func runC08(t *T) {
 		// Oracle B: a primitive the helper called has failed
 		sig += ":fault=" + coreM.fired
 		if got.Err == nil {
+			if want.Err != nil && !errors.Is(want.Err, hackpadfs.ErrNotImplemented) {
+				t.Fail("silent-failure", sig+":nil-where-fault-free-run-fails", fmt.Sprintf("%s: primitive %s failed and the helper returned nil, although the same call fails when nothing goes wrong (%v): a failing primitive cannot make it succeed\nprimitive calls: %v", where, coreM.fired, want.Err, coreM.calls))
+			}
 			if sm.Text != st.Text {
 				t.Fail("silent-failure", sig+":nil-but-not-done", fmt.Sprintf("%s: primitive %s failed, the helper returned nil, but the work was not done:\n%s\nprimitive calls: %v", where, coreM.fired, diffText(sm, st, "after the faulty run ", "after a fault-free run"), coreM.calls))
 			}
@@ -686,7 +696,7 @@ func c08FileHelpers(t *T) {
 		if _, ok := gerr.(*hackpadfs.PathError); !ok || !errors.Is(gerr, hackpadfs.ErrNotImplemented) {
 			t.Fail("file-helper", sig+":not-ENOSYS", fmt.Sprintf("%sFile on a handle without the method returned %#v (want *PathError with ErrNotImplemented)", which, gerr))
 		}
-		if a, b := takeSnapshot(innerM, snapOpts{}), takeSnapshot(innerT, snapOpts{}); werr == nil && which != "Write" && which != "WriteAt" && which != "Truncate" && which != "Chmod" && which != "Chtimes" && a.Text != b.Text {
+		if a, b := takeSnapshot(innerM, snapOpts{Special: true}), takeSnapshot(innerT, snapOpts{Special: true}); werr == nil && which != "Write" && which != "WriteAt" && which != "Truncate" && which != "Chmod" && which != "Chtimes" && a.Text != b.Text {
 			_ = a
 		}
 	}
@@ -701,10 +711,10 @@ func c08Probe(helper string, mask []string, o Op, faultAt int) func(t *T) {
 		innerT, _ := c08Inner(t, 0)
 		coreM := &capCore{t: t, inner: innerM, faultAt: faultAt}
 		coreT := &capCore{t: t, inner: innerT, faultAt: -1}
-		pre := takeSnapshot(innerT, snapOpts{})
+		pre := takeSnapshot(innerT, snapOpts{Special: true})
 		want := applyOp(newCapFS(coreT, capHelperIfs[helper]), o)
 		got := applyOp(newCapFS(coreM, mask), o)
-		sm, st := takeSnapshot(innerM, snapOpts{}), takeSnapshot(innerT, snapOpts{})
+		sm, st := takeSnapshot(innerM, snapOpts{Special: true}), takeSnapshot(innerT, snapOpts{Special: true})
 		sig := "C08:" + helper + ":" + opSig(Op{Kind: o.Kind, P: o.P, Q: o.Q}, pre) + ":exposed=" + capKey(mask)
 		t.Logf("%s masked=%v full=%v calls=%v fired=%q", o, got.Err, want.Err, coreM.calls, coreM.fired)
 		if coreM.fired == "" {
